@@ -15,7 +15,7 @@ use crate::{
     tap,
 };
 
-pub const NAMES: [&str; 3] = ["a", "b", "c"];
+pub const NAMES: [&str; 4] = ["a", "b", "c", "d"];
 
 #[derive(Debug, Clone, Copy, PartialEq, Eq, Hash, PartialOrd, Ord)]
 pub enum Off {
@@ -91,6 +91,10 @@ pub struct RawCfg {
     pub min_len: usize,
     pub min_regions: usize,
     pub readers: bool,
+    /// start from a non-initial state: this many regions created, filled with
+    /// `prefill_bytes` bytes each and flushed
+    pub prefill: usize,
+    pub prefill_bytes: usize,
 }
 
 impl RawCfg {
@@ -117,7 +121,7 @@ pub struct RawSys {
     dir: PathBuf,
     db: Option<Database>,
     model: BTreeMap<u8, MRegion>,
-    generation: [u8; 3],
+    generation: [u8; 4],
     reader: Option<HeldReader>,
     counters: BTreeMap<&'static str, u64>,
 }
@@ -421,7 +425,7 @@ impl RawSys {
                 r
             }
             RawOp::Retain(mask) => {
-                let keep: std::collections::HashSet<String> = (0..3u8)
+                let keep: std::collections::HashSet<String> = (0..4u8)
                     .filter(|i| mask & (1 << i) != 0)
                     .map(|i| NAMES[i as usize].to_string())
                     .collect();
@@ -429,7 +433,7 @@ impl RawSys {
             }
             RawOp::RetainHeld(mask, h) => {
                 let held = self.region(*h).unwrap();
-                let keep: std::collections::HashSet<String> = (0..3u8)
+                let keep: std::collections::HashSet<String> = (0..4u8)
                     .filter(|i| mask & (1 << i) != 0)
                     .map(|i| NAMES[i as usize].to_string())
                     .collect();
@@ -588,14 +592,24 @@ impl Sys for RawSys {
         if cfg.min_regions > 0 {
             db.set_min_regions(cfg.min_regions).expect("set_min_regions");
         }
-        Self {
+        let mut this = Self {
             dir: dir.to_path_buf(),
             db: Some(db),
             model: BTreeMap::new(),
-            generation: [0; 3],
+            generation: [0; 4],
             reader: None,
             counters: BTreeMap::new(),
+        };
+        for n in 0..cfg.prefill as u8 {
+            for op in [RawOp::Create(n), RawOp::Write(n, cfg.prefill_bytes)] {
+                this.exec(&op).expect("prefill");
+                this.model_apply(&op).expect("prefill model");
+            }
         }
+        if cfg.prefill > 0 {
+            this.exec(&RawOp::Flush).expect("prefill flush");
+        }
+        this
     }
 
     fn ops(&self, cfg: &RawCfg) -> Vec<RawOp> {
